@@ -161,6 +161,12 @@ def odd(state) -> bytes:
 
 @metacommand
 def align(state, count: uint) -> bytes:
+    if count == 0:
+        reports.error(
+            "value-out-of-bounds",
+            (state["insn"].ctx_start, state["insn"].ctx_end, "Cannot align to a multiple of zero")
+        )
+        return b""
     return b"\x00" * ((-wait(state["emit_address"])) % count)
 
 
